@@ -13,7 +13,7 @@ Print Assumptions C18_clear_restores.
 
 (* after any history ending with a rotation the field is F(original, accumulated matrix): it does not
    depend on the intermediate fields or on the resolutions chosen on the way *)
-Theorem C18_compose : forall rnd nv perm orig choose_n ops M nopt,
+Theorem C18_compose : forall rnd nv perm orig choose_n ops M nopt, op_accepted (ORot M nopt) = true ->
   let R := acc_rot rnd mid (ops ++ [ORot M nopt]) in
   run rnd nv perm orig choose_n (ops ++ [ORot M nopt]) =
   St R (rotated_field rnd nv perm orig R (match nopt with Some n => n | None => choose_n R end)).
@@ -21,19 +21,43 @@ Proof. exact run_field. Qed.
 Print Assumptions C18_compose.
 
 (* each new rotation multiplies the accumulated matrix from the left *)
-Theorem C18_left_multiplication : forall rnd ops M nopt a,
+Theorem C18_left_multiplication : forall rnd ops M nopt a, op_accepted (ORot M nopt) = true ->
   acc_rot rnd a (ops ++ [ORot M nopt]) = mmul rnd M (acc_rot rnd a ops).
 Proof. exact acc_rot_last. Qed.
 Print Assumptions C18_left_multiplication.
 
-(* ... so that later rotations are applied after earlier ones *)
+(* a refused rotate() call (unknown method, malformed arguments, unsuitable n) is the identity on the
+   state: field and accumulated rotation stay what they were *)
+Theorem C18_refused_step_is_identity : forall rnd nv perm orig choose_n s o,
+  op_accepted o = false -> step rnd nv perm orig choose_n s o = s.
+Proof. exact refused_step_identity. Qed.
+Print Assumptions C18_refused_step_is_identity.
+
+Example C18_refused_nonvacuous :
+  op_accepted ORefused = false /\ op_accepted (ORot mid (Some (N3 0 1 1))) = false /\
+  op_accepted (ORot mid (Some (N3 2 1 1))) = true.
+Proof. repeat split. Qed.
+
+(* ... so refused calls can be erased from any history (composition theorem for histories with refused
+   steps: C18_compose / C18_clear_restores apply to the accepted calls) *)
+Theorem C18_refused_steps_erasable : forall rnd nv perm orig choose_n ops,
+  run rnd nv perm orig choose_n ops = run rnd nv perm orig choose_n (filter op_accepted ops).
+Proof. exact refused_steps_erasable. Qed.
+Print Assumptions C18_refused_steps_erasable.
+
+Theorem C18_refused_rotation_not_composed : forall rnd ops a,
+  acc_rot rnd a ops = acc_rot rnd a (filter op_accepted ops).
+Proof. exact acc_rot_erasable. Qed.
+Print Assumptions C18_refused_rotation_not_composed.
+
+(* ... so that later rotations are applied after earlier ones (refused calls in between are skipped) *)
 Theorem C18_compose_in_order : forall rnd, (forall x, rnd x == x) -> forall ops, no_clear ops -> forall v,
   veq (mapply rnd (acc_rot rnd mid ops) v) (apply_steps rnd ops v).
 Proof. exact compose_in_order. Qed.
 Print Assumptions C18_compose_in_order.
 
 Example C18_compose_in_order_nonvacuous :
-  no_clear [ORot (M3 (V3 0 (-1) 0) (V3 1 0 0) (V3 0 0 1)) None; ORot mid (Some (N3 1 2 3))].
+  no_clear [ORot (M3 (V3 0 (-1) 0) (V3 1 0 0) (V3 0 0 1)) None; ORefused; ORot mid (Some (N3 1 2 3))].
 Proof. exact I. Qed.
 
 (* the evaluation order used by the checker is the model's function *)
